@@ -138,7 +138,7 @@ def sys0 (st0 : State α) : Sys α :=
 
 theorem StartOK.sysInv {cfg : Cfg} {den : Key → α} {st0 : State α} (h : StartOK cfg den st0) :
     SysInv cfg den (sys0 st0) := by
-  refine ⟨h.inv, h.sound, by simp [sys0, pendKeys], ?_, by simp [sys0], by simp, by simp [sys0], ?_, ?_, ?_, ?_, ?_, ?_, ?_⟩
+  refine ⟨h.inv, h.sound, by simp [sys0, pendKeys], ?_, by simp [sys0], by simp, by simp [sys0], ?_, ?_, ?_, ?_, ?_, ?_, ?_, ?_⟩
   · intro k
     simp [sys0, pendKeys, h.running]
   · simp [sys0, preKeys]
@@ -162,6 +162,11 @@ theorem StartOK.sysInv {cfg : Cfg} {den : Key → α} {st0 : State α} (h : Star
       rcases he' with rfl | rfl <;> cases hk'
     rw [hsub] at hk
     cases hk
+  · intro e he
+    simp only [sys0, List.mem_cons, List.not_mem_nil, or_false] at he
+    rcases he with rfl | rfl
+    · intro d v hv; cases hv
+    · exact h.sound
 
 /-- acyclic graph: the "Found no accessible jobs" error is unreachable -/
 theorem StartOK.accessible {cfg : Cfg} {den : Key → α} {st0 : State α} (h : StartOK cfg den st0)
